@@ -7,11 +7,34 @@ statement is resolved against the top-level bindings of module `X` in the *curre
 A name that is not bound there makes the import — and with it the whole module — fail at
 run time (`ImportError`); the list of such names is generated into Lean and compared with the
 observed import outcome by harness/props/c06.py.
+
+`Gen/Port.lean`: `open_circuit_impedance` (with its nested helper `isolated`) and
+`element_impedance` of Network/NodalAnalysis/node_analysis.py, translated statement by statement
+with the machinery of extract_core.py (class Tr / Gen; the functions they call are the generated
+ones of Gen/Core.lean and Gen/Transformers.lean).  New statement / expression shapes (class PortTr;
+idioms in CC/Model/PortBase.lean, namespace CC.Py):
+  any([...])                       Py.anyL            int(<count>)                 identity on a count
+  network.is_zero_node(x)          Gen.Transformers.Network.is_zero_node
+  trf.<function>(…)                the generated function of Gen/Transformers.lean
+  M[:, j]                          Py.Mat.col         v.any()                      Py.vecAny
+  M.any(axis=0)                    Py.Mat.anyAxis0    np.count_nonzero(mask)       Py.countNonzero
+  mask[:n]                         Py.sliceTo         M[np.ix_(mask, mask)]        Py.Mat.ix
+  np.zeros(n, dtype=complex)       Py.zerosVec        v[i] = x  (statement)        Py.setItem  (IndexError)
+  np.linalg.solve(A, b)            Py.linalgSolve solve   (the solver is a PARAMETER; LinAlgError when it has no answer)
+  v[i]                             Py.getItem  (IndexError)
+  if c: a, b = b, a / if c: a = E  the new values under c, the old ones otherwise
+  if a or b: …; return X           `if a: …; return X` then `if b: …; return X` (b evaluated only when a is false)
+  def helper(...) nested           a separate definition whose free variable `network` is a parameter, passed where the
+                                   helper is CALLED (Python closures read the variable at call time)
+CC/Properties/C06Gen.lean proves the generated definitions equal to the hand-written model
+CC/Model/Port.lean.  Anything else in the two functions raises ExtractError.
 """
 from __future__ import annotations
-import ast
+import ast, copy
 from pathlib import Path
 import extract
+import extract_core as core
+import extract_transformers as trfm
 
 def _top_level_names(tree: ast.Module) -> set[str]:
     names: set[str] = set()
@@ -92,3 +115,306 @@ def circuitImpedanceImports : List (String × String) := {_pairs(a2)}
 
 end CC.Gen
 '''
+
+# -------------------------------------------------------------------------------------------
+# Gen/Port.lean
+# -------------------------------------------------------------------------------------------
+
+F_NA = core.F_NA
+F_TRF = trfm.F_TRF
+
+MASK = ('list', 'bool')          # a boolean ndarray
+
+# nested helpers of open_circuit_impedance the translator knows the parameter kinds of
+# (both `str` parameters of `isolated` are node labels)
+NESTED = {'isolated': ([('node', 'label'), ('ground', 'label')], 'bool')}
+
+class PortTr(core.Tr):
+    """core.Tr plus the statement / expression shapes of the two port functions (idioms of
+    CC/Model/PortBase.lean).  Look-ups are never shared between two occurrences (a name may be
+    re-bound between them), every effect is bound where it occurs, in Python's evaluation order."""
+
+    def bind(self, code, stem, key=None):
+        return super().bind(code, stem, None)
+
+    # ---- expressions
+    def call(self, e):
+        f = e.func
+        if isinstance(f, ast.Name):
+            n = f.id
+            if n == 'any' and n not in self.env and len(e.args) == 1 and not e.keywords:
+                x, k = self.ex(e.args[0])
+                if k != MASK: self.no(e, f'any(…) of a {k} (only a list of booleans)')
+                return (f'(Py.anyL {x})', 'bool')
+            if n == 'int' and n not in self.env and len(e.args) == 1 and not e.keywords:
+                x, k = self.ex(e.args[0])
+                if k != 'nat': self.no(e, f'int(…) of a {k} (only a count)')
+                return (x, 'nat')
+            if n in self.env and isinstance(self.env[n][1], tuple) and self.env[n][1][0] == 'fn':
+                fn = self.env[n][1][1]
+                # a nested helper reads the enclosing function's variables when it is CALLED
+                for c in fn.closure:
+                    if c not in self.env or self.env[c][1] != fn.closure[c]:
+                        self.no(e, f'{n} is called where its free variable {c} is not a {fn.closure[c]}')
+                fn.extra = ' '.join(self.env[c][0] for c in fn.closure)
+                return self.apply(fn, e, e.args)
+        if isinstance(f, ast.Attribute):
+            if isinstance(f.value, ast.Name) and f.value.id == 'trf' and 'trf' not in self.env:
+                return self.apply(self.g.trf_fn(f.attr, e), e, e.args)
+            if core.is_np(f, 'count_nonzero') and len(e.args) == 1 and not e.keywords:
+                x, k = self.ex(e.args[0])
+                if k != MASK: self.no(e, f'np.count_nonzero of a {k} (only a boolean array)')
+                return (f'(Py.countNonzero {x})', 'nat')
+            if f.attr == 'solve' and core.is_np(f.value, 'linalg'):
+                if len(e.args) != 2 or e.keywords: self.no(e, 'np.linalg.solve(A, b) with other arguments')
+                a, ak = self.ex(e.args[0]); b, bk = self.ex(e.args[1])
+                if (ak, bk) != ('mat', 'vec'): self.no(e, f'np.linalg.solve of a {ak} and a {bk}')
+                self.g.uses_solve = True
+                return (self.bind(f'Py.linalgSolve solve {a} {b}', 'x'), 'vec')
+            if f.attr == 'any' and not (isinstance(f.value, ast.Name) and f.value.id == 'np'):
+                b, k = self.ex(f.value)
+                if k == 'vec' and not e.args and not e.keywords:
+                    return (f'(Py.vecAny {b})', 'bool')
+                if k == 'mat' and not e.args and len(e.keywords) == 1 and e.keywords[0].arg == 'axis' \
+                        and isinstance(e.keywords[0].value, ast.Constant) and e.keywords[0].value.value == 0 \
+                        and not isinstance(e.keywords[0].value.value, bool):
+                    return (f'(Py.Mat.anyAxis0 {b})', MASK)
+                self.no(e, f'.any(…) of a {k} outside the grammar (only vector.any() and matrix.any(axis=0))')
+            if f.attr == 'is_zero_node':
+                b, k = self.ex(f.value)
+                if k != 'net' or len(e.args) != 1 or e.keywords: self.no(e, '.is_zero_node outside the grammar')
+                a, ak = self.ex(e.args[0])
+                if ak != 'label': self.no(e, 'is_zero_node of a non-label')
+                return (f'({self.g.is_zero_node} {b} {a})', 'bool')
+        return super().call(e)
+
+    def np_call(self, e):
+        if e.func.attr == 'zeros' and e.keywords:
+            for kw in e.keywords:
+                if not (kw.arg == 'dtype' and isinstance(kw.value, ast.Name) and kw.value.id == 'complex' and 'complex' not in self.env):
+                    self.no(e, 'np.zeros keyword outside the grammar (only dtype=complex)')
+            e = copy.copy(e); e.keywords = []
+        return super().np_call(e)
+
+    def subscript(self, e):
+        s = e.slice
+        if (isinstance(e.value, ast.Attribute) and e.value.attr == 'shape') or isinstance(e.value, ast.DictComp):
+            return super().subscript(e)
+        b, k = self.ex(e.value)
+        # M[:, j]
+        if isinstance(s, ast.Tuple):
+            if not (len(s.elts) == 2 and isinstance(s.elts[0], ast.Slice) and s.elts[0].lower is None
+                    and s.elts[0].upper is None and s.elts[0].step is None and k == 'mat'):
+                self.no(e, 'index tuple outside the grammar (only matrix[:, column])')
+            j, jk = self.ex(s.elts[1])
+            if jk != 'nat': self.no(e, f'column index is a {jk}')
+            return (f'(Py.Mat.col {b} {j})', 'vec')
+        # M[np.ix_(r, c)]
+        if isinstance(s, ast.Call) and core.is_np(s.func, 'ix_'):
+            if k != 'mat' or len(s.args) != 2 or s.keywords: self.no(e, 'np.ix_ outside the grammar (only matrix[np.ix_(mask, mask)])')
+            r, rk = self.ex(s.args[0]); c, ck = self.ex(s.args[1])
+            if rk != MASK or ck != MASK: self.no(e, f'np.ix_ of a {rk} and a {ck} (only boolean arrays)')
+            return (f'(Py.Mat.ix {b} {r} {c})', 'mat')
+        if isinstance(s, ast.Slice):
+            if s.step is not None or s.lower is not None or s.upper is None:
+                self.no(e, 'slice outside the grammar (only x[:n])')
+            u, uk = self.ex(s.upper)
+            if uk != 'nat': self.no(e, 'slice bound is not a count')
+            if k == MASK: return (f'(Py.sliceTo {b} {u})', MASK)
+            if k == 'vec': return (f'(Py.sliceTo {b} {u})', 'vec')
+            self.no(e, f'slice of a {k}')
+        i, ik = self.ex(s)
+        if k == 'net' and ik == 'id':
+            return (self.bind(f'{self.g.fn_getitem.lean} {b} {i}', 'b'), 'branch')
+        if isinstance(k, tuple) and k[0] == 'map' and ik == k[1]:
+            return (self.bind(f'({b}).getitem {i}', 'k'), 'nat')
+        if k == 'vec' and ik == 'nat':
+            return (self.bind(f'Py.getItem {b} {i}', 'z'), 'num')          # IndexError when out of range
+        self.no(e, f'subscript of a {k} by a {ik} outside the grammar')
+
+    # ---- statements
+    def pure_ex(self, e, what):
+        n0 = len(self.lines)
+        r = self.ex(e)
+        if len(self.lines) != n0: self.no(e, f'{what} contains an operation that may raise')
+        return r
+
+    def block(self, stmts):
+        if stmts:
+            s, rest = stmts[0], stmts[1:]
+            if isinstance(s, ast.FunctionDef):
+                if s.name not in self.g.nested: self.no(s, f'nested function {s.name} outside the grammar')
+                self.env[s.name] = (s.name, ('fn', self.g.nested[s.name]))
+                return self.block(rest)
+            if isinstance(s, ast.If) and not s.orelse:
+                returns = any(isinstance(x, (ast.Return, ast.Raise)) for b in s.body for x in ast.walk(b))
+                if returns and isinstance(s.test, ast.BoolOp) and isinstance(s.test.op, ast.Or) and isinstance(s.body[-1], ast.Return):
+                    # `if a or b: …; return X`  ≡  `if a: …; return X` followed by `if b: …; return X`
+                    # (b is evaluated only when a is false: short-circuit order of effects kept)
+                    split = [ast.copy_location(ast.If(test=v, body=s.body, orelse=[]), s) for v in s.test.values]
+                    return self.block(split + rest)
+                if not returns:
+                    self.cond_assign(s)
+                    return self.block(rest)
+            if isinstance(s, ast.Assign) and len(s.targets) == 1 and isinstance(s.targets[0], ast.Subscript):
+                self.set_item(s)
+                return self.block(rest)
+        return super().block(stmts)
+
+    def cond_assign(self, s):
+        """`if c: a, b = E1, E2`  /  `if c: a = E` for names bound before: the new values under c, the old ones otherwise"""
+        c = self.cond(s.test, 'prop')
+        if len(s.body) != 1 or not isinstance(s.body[0], ast.Assign) or len(s.body[0].targets) != 1:
+            self.no(s, 'if-statement outside the grammar (`if c: return …`, `if c: raise …`, `if c: <one assignment>`)')
+        a = s.body[0]; tg = a.targets[0]
+        if isinstance(tg, ast.Name):
+            names, values = [tg.id], [a.value]
+        elif isinstance(tg, ast.Tuple) and isinstance(a.value, ast.Tuple) and len(tg.elts) == len(a.value.elts) == 2 \
+                and all(isinstance(t, ast.Name) for t in tg.elts) and tg.elts[0].id != tg.elts[1].id:
+            names, values = [t.id for t in tg.elts], list(a.value.elts)
+        else:
+            self.no(s, 'conditional assignment outside the grammar (a name, or `a, b = E1, E2`)')
+        for n in names:
+            if n not in self.env or isinstance(self.env[n][1], tuple) and self.env[n][1][0] in ('fn', 'mapper'):
+                self.no(s, f'conditional assignment to {n!r}, which is not a variable bound before')
+        new = [self.pure_ex(v, 'conditional assignment') for v in values]      # right-hand sides first (tuple semantics)
+        old = [self.env[n] for n in names]
+        for n, (vc, vk), (oc, ok) in zip(names, new, old):
+            if vk != ok: self.no(s, f'conditional assignment changes the kind of {n!r} ({ok} → {vk})')
+        if len(names) == 1:
+            ln = self.local_name(names[0])
+            self.lines.append(f'let {ln} : {core.lean_ty(old[0][1])} := if {c} then {new[0][0]} else {old[0][0]}')
+            self.env[names[0]] = (ln, old[0][1])
+            return
+        t = self.fresh('t')
+        if t in self.env: self.no(s, f'name clash with the generated name {t}')
+        ty = ' × '.join(f'({core.lean_ty(k)})' for _, k in old)
+        self.lines.append(f'let {t} : {ty} := if {c} then ({new[0][0]}, {new[1][0]}) else ({old[0][0]}, {old[1][0]})')
+        for j, n in enumerate(names):
+            ln = self.local_name(n)
+            self.lines.append(f'let {ln} : {core.lean_ty(old[j][1])} := {t}.{j + 1}')
+            self.env[n] = (ln, old[j][1])
+
+    def set_item(self, s):
+        """`x[i] = v` on a local 1-d array"""
+        tg = s.targets[0]
+        if not (isinstance(tg.value, ast.Name) and tg.value.id in self.env and self.env[tg.value.id][1] == 'vec'):
+            self.no(s, 'item assignment outside the grammar (only vector[index] = number)')
+        v = self.num(self.pure_ex(s.value, 'item assignment'), s)
+        x = self.env[tg.value.id][0]
+        i, ik = self.pure_ex(tg.slice, 'item assignment')
+        if ik != 'nat': self.no(s, f'item assignment at a {ik}')
+        self.lines.append(f'let {x} ← Py.setItem {x} {i} {v}')
+        self.monadic = True
+
+
+def _assigned(stmts):
+    out = set()
+    for st in stmts:
+        for x in ast.walk(st):
+            if isinstance(x, ast.Name) and isinstance(x.ctx, (ast.Store, ast.Del)): out.add(x.id)
+            if isinstance(x, (ast.Global, ast.Nonlocal)): out.update(x.names)
+    return out
+
+class PortGen(core.Gen):
+    def __init__(self, src):
+        super().__init__(src)
+        self.run()                      # the core tables (fns, Network methods, mappers); a refusal of the core is ours too
+        self.out = []
+        self.TR = PortTr
+        self.nested = {}
+        self.uses_solve = False
+        t = trfm.Gen(src)               # checks Network / Branch / is_zero_node against the text Gen/Transformers.lean is written for
+        t.translate()
+        self.trf_sigs = t.sigs
+        self.is_zero_node = 'Gen.Transformers.Network.is_zero_node'
+        self.check_imports()
+
+    def check_imports(self):
+        """the module aliases the two functions use must be the ones the translator reads them as"""
+        want = {'np': ('import', 'numpy'), 'map': ('from', '', 'label_mapping', 1), 'trf': ('from', '', 'transformers', 2),
+                'is_ideal_voltage_source': ('from', 'elements', 'is_ideal_voltage_source', 2)}
+        have = {}
+        for st in self.trees[F_NA].body:
+            if isinstance(st, ast.Import):
+                for a in st.names: have[a.asname or a.name] = ('import', a.name)
+            elif isinstance(st, ast.ImportFrom):
+                for a in st.names: have[a.asname or a.name] = ('from', st.module or '', a.name, st.level)
+            elif isinstance(st, (ast.FunctionDef, ast.ClassDef)):
+                if st.name in want: core.refuse(F_NA, st, f'{st.name} is redefined locally')
+            elif isinstance(st, ast.Assign):
+                for x in ast.walk(st):
+                    if isinstance(x, ast.Name) and isinstance(x.ctx, ast.Store) and x.id in want:
+                        core.refuse(F_NA, st, f'{x.id} is re-bound at module level')
+        for n, w in want.items():
+            if have.get(n) != w: core.refuse(F_NA, None, f'module name {n!r} is bound to {have.get(n)}, the translator reads it as {w}')
+
+    def trf_fn(self, name, node):
+        if name not in self.trf_sigs: core.refuse(F_NA, node, f'trf.{name} is not a function of transformers.py')
+        s = self.trf_sigs[name]
+        if s.defaults: core.refuse(F_NA, node, f'trf.{name}: a function with an exemption list is outside the grammar here')
+        fn = core.Fn(f'Gen.Transformers.{name}', list(s.params), s.ret, s.monadic)
+        fn.mappers = {}
+        return fn
+
+    def port(self):
+        w = self.w
+        ta = self.trees[F_NA]
+        fd = core.find(ta, 'open_circuit_impedance', ast.FunctionDef)
+        if fd is None: core.refuse(F_NA, ta, 'open_circuit_impedance not found')
+        PLAIN = [('network', 'net'), ('node1', 'label'), ('node2', 'label')]
+        self.sig(F_NA, fd, [p for p, _ in PLAIN])
+        ms = self.mappers_of(F_NA, fd, len(PLAIN))
+        if fd.decorator_list: core.refuse(F_NA, fd, 'decorated function')
+        enclosing = {a.arg for a in fd.args.args} | _assigned([s for s in fd.body if not isinstance(s, ast.FunctionDef)])
+        for nd in [s for s in fd.body if isinstance(s, ast.FunctionDef)]:
+            if nd.name not in NESTED: core.refuse(F_NA, nd, f'nested function {nd.name} outside the grammar')
+            if nd.name in self.nested or nd.name in enclosing: core.refuse(F_NA, nd, f'{nd.name} is bound more than once')
+            nparams, nret = NESTED[nd.name]
+            self.sig(F_NA, nd, [p for p, _ in nparams])
+            if len(nd.args.args) != len(nparams) or nd.args.defaults or nd.decorator_list:
+                core.refuse(F_NA, nd, f'{nd.name}: signature outside the grammar')
+            own = {a.arg for a in nd.args.args} | _assigned(nd.body)
+            used = {x.id for b in nd.body for x in ast.walk(b) if isinstance(x, ast.Name)}
+            free = sorted((used - own) & enclosing)
+            for c in free:
+                if c != 'network' and c not in ms:
+                    core.refuse(F_NA, nd, f'{nd.name} reads the variable {c!r} of the enclosing function (only network and the mapper parameter)')
+            closure = {'network': 'net'} if 'network' in free else {}
+            nf = self.translate(F_NA, nd, nd.name, nparams, nret, closure={c: (c, k) for c, k in closure.items()}, mappers=ms,
+                                prefix_binders=' '.join(f'({c} : {core.lean_ty(k)})' for c, k in closure.items()),
+                                doc=f'{nd.name}, nested in open_circuit_impedance (node_analysis.py:{nd.lineno}); its free variable '
+                                    f'`network` is a parameter, passed where the helper is called')
+            nf.closure = closure
+            self.nested[nd.name] = nf
+        SOLVE = '(solve : Py.Mat K → List K → Option (List K))'
+        f = self.translate(F_NA, fd, 'open_circuit_impedance', PLAIN, 'xval', mappers=ms, prefix_binders=SOLVE, want_x=True,
+                           force_monadic=True,
+                           doc=f'open_circuit_impedance (node_analysis.py:{fd.lineno}): `np.linalg.solve` is the parameter `solve`; '
+                               f'`return 0` is `fin 0`, `return np.inf` is `inf`')
+        f.extra = 'solve'
+        self.fns['open_circuit_impedance'] = f
+        self.nested = {}
+        fe = core.find(ta, 'element_impedance', ast.FunctionDef)
+        if fe is None: core.refuse(F_NA, ta, 'element_impedance not found')
+        PLAIN2 = [('network', 'net'), ('element', 'id')]
+        self.sig(F_NA, fe, [p for p, _ in PLAIN2])
+        if fe.decorator_list: core.refuse(F_NA, fe, 'decorated function')
+        if any(isinstance(s, ast.FunctionDef) for s in fe.body): core.refuse(F_NA, fe, 'element_impedance: nested function')
+        ms2 = self.mappers_of(F_NA, fe, len(PLAIN2))
+        self.translate(F_NA, fe, 'element_impedance', PLAIN2, 'xval', mappers=ms2, prefix_binders=SOLVE, want_x=True, force_monadic=True,
+                       doc=f'element_impedance (node_analysis.py:{fe.lineno})')
+        body = self.out
+        head = ['/- GENERATED by harness/extract_port.py from `open_circuit_impedance` and `element_impedance` of',
+                '   src/CircuitCalculator/Network/NodalAnalysis/node_analysis.py — do not edit.',
+                '   Idioms: CC/Model/CoreBase.lean, TransformersBase.lean, PortBase.lean (namespace CC.Py); the functions they',
+                '   call are the generated ones of CC/Gen/Core.lean and CC/Gen/Transformers.lean. -/',
+                'import CC.Gen.Transformers', 'import CC.Model.PortBase', 'set_option linter.unusedVariables false',
+                'namespace CC.Gen.Port', 'open CC CC.Gen.Core', '', 'section',
+                'variable {L K : Type} [DecidableEq L] [LabelOrd L]',
+                'variable [Zero K] [One K] [Add K] [Mul K] [Neg K] [Sub K] [Inv K] [Div K] [DecidableEq K]', '']
+        return '\n'.join(head + body + ['end', '', 'end CC.Gen.Port']) + '\n'
+
+@extract.generator('Port.lean')
+def gen_port(src: Path) -> str:
+    return PortGen(src).port()
